@@ -68,6 +68,9 @@ def run(ctx) -> None:
     r02_5(ctx)
     r02_6(ctx)
     r02_7(ctx)
+    from . import tooltables
+    tooltables.aggregate_tables(ctx, "R02.8")
+    ctx.floor("agg_cells_decided", 300)
     ctx.floor("guard_cells", 12)
     ctx.floor("aggregations", 15)
     ctx.floor("key_wrappers", 1)
